@@ -12,7 +12,7 @@
 (* A case is a sequence of elements [b, a, s, e]: Before, After in 0..2     *)
 (* (None, NewLine, EmptyLine), s = Start decorations, e = End decorations,  *)
 (* decorations being sequences over "L" (line comment), "B" (block          *)
-(* comment), "N" (newline).  The opening delimiter precedes the first       *)
+(* comment), "M" (block comment that spans two lines), "N" (newline).  The opening delimiter precedes the first       *)
 (* element, the closing delimiter follows the last one.                     *)
 (***************************************************************************)
 EXTENDS Integers, Sequences, FiniteSets, TLC, Json
@@ -46,8 +46,10 @@ ApplyDecs(st, ds, who, k) ==
   IF ds = <<>> THEN st
   ELSE LET d == Head(ds)
            lbl == who \o ToString(k)
-           s1 == IF d \in {"L", "B"} THEN Emit(st, lbl) ELSE st
-           s2 == IF d \in {"L", "N"} THEN Break(s1) ELSE s1
+           s1 == IF d \in {"L", "B", "M"} THEN Emit(st, lbl) ELSE st
+           s2 == IF d \in {"L", "N"} THEN Break(s1)
+                 ELSE IF d = "M" THEN Emit(Break(s1), "u" \o lbl)     \* the comment's own line break; its second line goes on
+                 ELSE s1
        IN ApplyDecs(s2, Tail(ds), who, k + 1)
 
 RenderElem(st, el, i) ==
@@ -89,6 +91,8 @@ OwnLines(es) ==
 LineOf(ls, lbl) == CHOOSE k \in DOMAIN ls : \E j \in DOMAIN ls[k] : ls[k][j] = lbl
 BlankBetween(ls, x, y) == \E k \in (LineOf(ls, x) + 1)..(LineOf(ls, y) - 1) : ls[k] = <<>>
 OwnBreaks(ds) == Cardinality({k \in DOMAIN ds : ds[k] \in {"L", "N"}})
+\* (the rule is stated for comments that stay on one line; two-line comments are judged by conformance)
+NoM(ds) == \A k \in DOMAIN ds : ds[k] # "M"
 El(i) == "e" \o ToString(i)
 
 \* between two adjacent siblings: one blank line iff After / Before is EmptyLine, when the
@@ -96,14 +100,14 @@ El(i) == "e" \o ToString(i)
 NonAdditive(es) ==
   OwnLines(es) =>
   \A i \in 1..(Len(es) - 1) :
-     (OwnBreaks(es[i].e) <= 1 /\ ~(\E k \in DOMAIN es[i].e : es[i].e[k] = "N" /\ k < Len(es[i].e)) /\ es[i + 1].s = <<>>) =>
+     (OwnBreaks(es[i].e) <= 1 /\ NoM(es[i].e) /\ ~(\E k \in DOMAIN es[i].e : es[i].e[k] = "N" /\ k < Len(es[i].e)) /\ es[i + 1].s = <<>>) =>
         (BlankBetween(Printed(es), El(i), El(i + 1)) <=> (es[i].a = 2 \/ es[i + 1].b = 2))
 
 \* Before of the first and After of the last decide the blank line at the delimiters
 Delimiters(es) ==
   (OwnLines(es) /\ Len(es) > 0) =>
      /\ es[1].s = <<>> => (BlankBetween(Printed(es), "{", El(1)) <=> es[1].b = 2)
-     /\ OwnBreaks(es[Len(es)].e) <= 1 /\ ~(\E k \in DOMAIN es[Len(es)].e : es[Len(es)].e[k] = "N" /\ k < Len(es[Len(es)].e))
+     /\ OwnBreaks(es[Len(es)].e) <= 1 /\ NoM(es[Len(es)].e) /\ ~(\E k \in DOMAIN es[Len(es)].e : es[Len(es)].e[k] = "N" /\ k < Len(es[Len(es)].e))
           => (BlankBetween(Printed(es), El(Len(es)), "}") <=> es[Len(es)].a = 2)
 
 \* a line comment or newline decoration never removes a blank line that spacing asks for, and
